@@ -17,6 +17,7 @@ STATE_FILES = ("cluster_config.json", "job_status.json", "config_version.txt", "
 
 def make_world_f(scen, oracles=(), fault_plan=None):
     base = S.base_dir()
+    boot.reset_module_state()
     shutil.rmtree(base, ignore_errors=True)
     os.makedirs(base + "/scratch")
     root = base + "/out"
